@@ -6,8 +6,8 @@ from common import *
 NOW = 1700000000000
 KEYS = ["a", "b", "c"]
 # "", plain, numeric-looking but not canonical, canonical int, negative int, float, CR LF inside, bytes >= 0x80
-VALUES = ["", "x", "007", "12", "-3", "1.5", "a\r\nb", "\x00\xff\x80z"]
-MORE_VALUES = ["hello", "+5", "1.50", "10", "-0", "0", "0.5", "-0.25", "1e3", " 1", "9223372036854775807",
+VALUES = ["", "x", "007", "12", "-3", "1.5", "a\r\nb", "\x00\xff\x80z", "0.00001", "%d"]
+MORE_VALUES = ["hello", "+5", "1.50", "10", "-0", "0", "0.5", "-0.25", "0.00001", "-0.00002", "0.0001", "1e3", " 1", "9223372036854775807",
                "9223372036854775808", "-9223372036854775808", "\xe2\x82\xac", "12abc", ".5", "5."]
 INTS = ["1", "-1", "0", "5", "-7", "100", "9223372036854775807", "-9223372036854775808", "+3", "007"]
 FLOATS = ["1.5", "-0.25", "2", "0.5", "-3", "0.125", "10"]
